@@ -52,6 +52,8 @@ def run_cold_process(spec, timeout=600):
     env = dict(os.environ)
     env["PYTHONHASHSEED"] = str(srv.get("hashseed", 0))
     env["PYTHONDONTWRITEBYTECODE"] = "1"
+    for n, v in ((spec.get("knobs") or {}).get("env") or {}).items():
+        env[n] = v                     # set before the interpreter starts (import-time reads)
     pp = [VERIF]
     if os.environ.get("SIM_REPO_ROOT"):
         pp.insert(0, os.environ["SIM_REPO_ROOT"])
